@@ -406,6 +406,19 @@ def ptsLoopSteps (L : Lex) : List Line → Nat → Option Nat → Nat
     else if !ptsTokensOk L l.toks then 1
     else ptsLoopSteps L ls n (some l.toks.length) + 1
 
+/-! ## the pinned ASCII face loop (before bd55314), kept as a record of the defect
+
+  `for i < count { scanner.Scan(); line := scanner.Text(); if line == "" { continue }; … i++ }`
+  with the result of `Scan()` ignored: at end of input `Text()` is `""`, so the state is unchanged. -/
+
+/-- one iteration of the pinned loop on the state (remaining lines, faces read so far); `none` = loop exit -/
+def oldFaceLoopStep (count : Nat) : List Line × Nat → Option (List Line × Nat)
+  | (ls, i) =>
+    if count ≤ i then none
+    else match ls with
+      | [] => some ([], i)              -- Scan() = false ignored, Text() = "" → continue
+      | l :: rest => if l.blank then some (rest, i) else some (rest, i + 1)
+
 /-! ## Go number syntax (decimal subset) for the driver -/
 
 def isDigit (b : UInt8) : Bool := 48 ≤ b && b ≤ 57
